@@ -345,6 +345,22 @@ def rule_flow_admit_sums(ctx):
                           expected='each scanned victim found in the map contributes +frequency(its hash) and +its weight exactly once and is listed')
         if n < 3 and not r.violations:
             raise CheckFailure('FLOW-admit-sums: only %d decision paths in %s' % (n, nid))
+        # the victim list only grows: a node that was counted into the aggregates is never taken off the list again (the verdict and the
+        # weight handed to the caller were computed with it)
+        TAKERS = ('remove', 'swap_remove', 'pop', 'truncate', 'clear', 'retain', 'retain_mut', 'drain', 'split_off', 'dedup', 'dedup_by', 'dedup_by_key')
+        group = [prog.bodies[nid]] + [bc for bc in prog.bodies.values() if bc.kind == 'closure' and bc.root == nid]
+        nlist = 0
+        for bx in group:
+            for _, t in bx.calls():
+                a0 = str((t.get('args') or [{}])[0].get('pty') or '')
+                if 'DeqNode' in a0 and ('SmallVec' in a0 or 'Vec<' in a0):
+                    nlist += 1
+                    cal = norm(str(t.get('callee') or ''))
+                    if cal.split('::')[-1] in TAKERS:
+                        r.violate(nid, 'victim-unlisted', cal.split('::')[-1], '%s takes nodes off the victim list again (%s) after they were counted into victims.weight / victims.freq: the '
+                                  'verdict and the weight given back to the caller no longer describe the entries that are removed' % (nid, cal), where=ctx.where(nid, t.get('line')),
+                                  expected='the victim list is exactly the scanned victims, in scan order')
+        r.instance(function=nid, victim_list_operations=nlist, only_grows=True)
     # candidate frequency origin, at the callers
     for caller, hname in ((named(ctx, 'unsync.insert_handler'), 'hash'), (named(ctx, 'sync.upsert'), None)):
         if caller not in prog.bodies:
@@ -721,6 +737,14 @@ def rule_cmp_evict(ctx):
                                   'evicts for the stale excess: live LRU entries are evicted although the freed weight already covers it', where=ctx.where(m),
                                   expected='compute weights_to_evict after evict_expired, immediately before evict_lru_entries')
                 if guard is None:
+                    # a run that ends without having looked at the excess at all: the eviction is gated by something else (a flag, the number of
+                    # writes applied in this run, ...).  The excess left by a growing update beyond one batch is then never removed by the
+                    # following runs.  (Runs of a function that is not the one containing the eviction step are not concerned.)
+                    if not called and (EVL in prog.reachable_from([m])) and p.ret is not None:
+                        r.instance(function=m, weights_to_evict_examined=False, eviction_called=False)
+                        r.violate(m, 'eviction-gated', 'evict_lru_entries', 'a path of the maintenance run ends without evicting and without having established weights_to_evict == 0 '
+                                  '(conditions: %s): the over-capacity step is gated by other state' % [fmt(t)[:50] + '==' + str(v) for t, v in p.conds][-6:], where=ctx.where(m),
+                                  expected='evict whenever weights_to_evict > 0, on every maintenance run')
                     continue
                 r.instance(function=m, weights_to_evict_positive=guard, eviction_called=called)
                 if guard and not called:
